@@ -12,13 +12,13 @@ for d in sorted(glob.glob(os.path.join(ROOT, "seeded", "C*"))):
     missed = [k for k, c in checks.items() if c["rc"] == 0]
     sigs = sorted({s for c in checks.values() for s in c.get("sigs", [])})
     rows.append((os.path.basename(d), m.get("property"), "yes" if ok else "NO: " + json.dumps({k: v.get(k) for k in ("applies", "builds", "suite_ok", "demo_fails_with_patch", "demo_passes_without_patch", "suite_failures_with_patch")}),
-                 ", ".join(caught) or "-", ", ".join(missed) or "-", ", ".join(sigs)[:160], (m.get("needs") or "")[:200].replace("\n", " ").replace("|", "/")))
+                 ", ".join(caught) or "-", ", ".join(missed) or "-", ", ".join(sigs)[:160], (m.get("needs") or "")[:200].replace("\n", " ").replace("|", "/"), (m.get("note") or v.get("note") or "").replace("|", "/")))
 with open(os.path.join(ROOT, "seeded", "RESULTS.md"), "w") as f:
     f.write("# Independently written breaking changes and the checks that catch them\n\n")
     f.write("Each change was written by a fresh sub-agent that saw only the property text and a scratch worktree of the library. "
             "`confirmed` = in a scratch worktree the patch applies, builds, the existing suite passes (apart from the baseline's always-failing `examples::TestCache`), "
             "the demonstration fails with the patch and passes without it (`tools/seeded.py verify`). `caught by` / `not caught by` = quick-tier runs of the named checks with the patch applied to /repo's working tree (`tools/seeded.py check`), reverted afterwards.\n\n")
-    f.write("| id | property | confirmed | caught by | not caught by | signatures | needs |\n|---|---|---|---|---|---|---|\n")
+    f.write("| id | property | confirmed | caught by | not caught by | signatures | needs | note |\n|---|---|---|---|---|---|---|---|\n")
     for r in rows:
         f.write("| " + " | ".join(str(x) for x in r) + " |\n")
 print("%d seeded changes; %d caught by at least one check" % (len(rows), sum(1 for r in rows if r[3] != "-")))
